@@ -16,6 +16,16 @@ Reading
 * "returned as is": `merge_parts(x) is part` for a Part, a group or list (or Score) holding exactly one part.
 * "sounding notes equal those of the score-level note array": the (onset_div, duration_div, pitch) rows of
   `merged.note_array()` are, as a multiset, those of `note_array_from_part_list` applied to fresh copies of the inputs.
+* "every ... element of every input": every object registered on the timeline of an input - by its start, or by its end
+  only (a slur or tuplet whose start is not in the score; fixes/C15-9).  References between objects (ties, slurs,
+  tuplets, beams, grace chains, fermatas) are not mentioned by the property: the oracle only demands that they are the same
+  objects as before and that a referenced object which must be in the merged part is on ITS timeline; a reference to a
+  dropped structural object of a later part (note.fermata) may dangle - the model says exactly which do (`dangling`).
+* "one divisions value each": `_quarter_durations` has one entry with a positive integer value (6.0 counts, fixes/C15-7);
+  a part with several entries must make merge_parts raise (two or more parts) or is returned as is (alone).
+* Domain: notes carry a voice >= 1 and staves are >= 1; other inputs are only compared with the model (no oracle claim).
+* `load_score_as_part(f)` is `merge_parts(load_score(f).parts)` in voice mode; it is run on the multi-part scores of the
+  implementation's tests/data, as are merge_parts(Score), (score.parts), (score.part_structure) and (first PartGroup).
 """
 import math
 import random
@@ -32,31 +42,51 @@ DRIVER = "drv_c15"
 PROPS = ["PartituraModel.Props.C15", "PartituraModel.Props.C15Ext"]
 TRUSTED = [
     "Part.iter_all() / TimePoint registries as the source of the abstract element lists (their order is what the model "
-    "sorts by: time point, class walk of Gen/Classes.lean, insertion)",
+    "sorts by: time point, class walk of Gen/Classes.lean, insertion); objects that only have an end are read from the "
+    "ending registries",
     "Note.duration_tied equals the duration of the note plus those of its tie_next_notes (the recursion over object "
     "references is unfolded by the harness and re-checked on every generated note)",
-    "np.unique / np.lcm.reduce / max(default=1) as sorted distinct values, least common multiple and maximum",
-    "identity of Python objects is represented by a number per object (merge_parts moves objects, never copies them)",
-    "parts with other than exactly one quarter duration are sent to the model as divisions 0 (rejected there)",
+    "np.unique / np.lcm.reduce / max(default=1) as sorted distinct values, least common multiple and maximum; "
+    "int(lcm / d) as the exact quotient (float division: exact below 2**53)",
+    "identity of Python objects is represented by a number per object (merge_parts moves objects, never copies them); "
+    "the references of an object are the TimedObjects found in its instance attributes (directly or in a list)",
+    "parts with other than exactly one quarter duration are sent to the model as divisions 0 through Model.Merge.divsOf "
+    "(rejected there: multi_division_rejected)",
+    "harness/translate_c15.py: the ast reading of merge_parts (class tuples per mode, isinstance guards of the voice / "
+    "staff assignments, sources of the unique voices / staves, the constant 4, class names of the docstring); a source "
+    "it cannot read yields extractionOk = false and breaks C15.source_tables",
+    "load_score_as_part: the loaders are not modelled; the score it loads is observed through a wrapper of "
+    "partitura.io.load_score that calls the original and records the result before merge_parts modifies it",
 ]
 PARTIAL = [
     "auto mode: disjoint voices are proved under the documented assumption of at most 4 voices per staff "
     "(voices_disjoint_auto_partial); the negation is proved at a witness and proposed as open finding F-C15-6",
-    "the order in which the merged part yields its elements and the quarter value of its time points are compared "
-    "with the model on generated inputs, not stated as theorems",
-    "attributes other than class, times, voice, staff, pitch and tie links are covered by object identity in the "
-    "oracle (the same objects are re-registered), not by the model",
+    "the time points of the merged part and their quarter value are compared with the model on generated inputs and "
+    "files, not stated as theorems (the order of iteration is: merged_order)",
+    "attributes other than class, times, voice, staff, pitch, tie links and references to other objects are covered "
+    "by object identity in the oracle (the same objects are re-registered), not by the model",
+    "load_score_as_part is modelled from the loaded score on (loadScoreAsPart = merge in voice mode); that the loaders "
+    "deliver parts in the domain of the property is only observed on the scores of tests/data",
 ]
 RULE = ("corpus + seeded scores / part groups / nested groups / lists of 1-4 parts over division tuples such as (3,4), "
         "(2,3,5), (4,4), (480,960), 1-4 (sparse) voices, 1-3 staves, parts or notes without staff, rest-only voices, "
-        "clefs on staves without notes, ties, grace and unpitched notes, one element of every TimedObject class in every "
-        "part, x the three reassign modes (+ rejected modes and multi-division parts); distinct = distinct request line; "
-        "trivial = rejected input")
+        "clefs on staves without notes, ties, grace and unpitched notes, slurs / tuplets / beams / fermatas that refer "
+        "to notes, slurs that only have an end, parts whose first time point is later than 0 (each at its own offset), "
+        "one element of every TimedObject class in every part, x the three reassign modes (+ rejected modes and "
+        "multi-division parts) + multi-part scores of tests/data (MusicXML, MEI, kern, MIDI) through "
+        "load_score_as_part, merge_parts(Score), (score.parts), (part_structure), (first PartGroup); distinct = distinct "
+        "request line; trivial = rejected input or an input outside the domain (a note without voice ...)")
 LEVEL_TEXT = ("Lean 4 theorems over all lists of abstract parts: exact time preservation under lcm rescaling, sounding rows "
               "equal to the rescaled rows of the inputs, voice/staff disjointness across and preservation within parts by "
-              "induction over the part list with the running offsets, structural classes from the first part only, "
-              "single part returned as is; the model is tied to merge_parts by a differential run on generated scores "
-              "(every kept element's identity, class, times, voice, staff; time points and their quarter; note arrays).")
+              "induction over the part list with the running offsets (elements and end-only objects alike), structural "
+              "classes from the first part only with the class tuples regenerated from the source of merge_parts "
+              "(discard_table, source_tables, doc_table), single part returned as is, dispatch on Score / nested groups / "
+              "lists (dispatch_*), load_score_as_part = voice-mode merge, references between objects preserved and "
+              "characterised (refs_preserved, dangling_iff, no_dangling), end-only objects transferred, order of "
+              "iteration (merged_order), several divisions values rejected; the model is tied to merge_parts and "
+              "load_score_as_part by a differential run on generated scores and on the multi-part scores of tests/data "
+              "(every kept object's identity, class, times, voice, staff, references; time points and their quarter; "
+              "note arrays).")
 
 MODES = ("voice", "staff", "auto")
 STEPS = "CDEFGAB"
